@@ -229,6 +229,8 @@ def _run(ctx):
     r4 = ctx.rule('R4', 'terminal setters: effects on the CAS success edge '
                   'only (shared with C03.R7/C09.R1)', 'GD')
     c03.finished_workflows(ctx, r4, completed, S)
+    from mstatic.rules import shared as _shc
+    _shc.cas_primitive_reports_loss(ctx, r4)
 
     # ---- R5 a documented stop is not silently ignored ------------------------
     r5 = ctx.rule('R5', 'every documented move into a final state is '
